@@ -365,6 +365,7 @@ func c09Units(tier string, seed int64) []Unit {
 		}
 	}})
 	units = append(units, checkWrapUnit())
+	units = append(units, synctestUnit())
 	return units
 }
 
